@@ -65,6 +65,19 @@ class _Rewriter(ast.NodeTransformer):
                              args=[ast.Constant(lid), node.iter], keywords=[])
         return node
 
+    def visit_SetComp(self, node):
+        # {elt for ...}  ->  vcset_([elt for ...]): a set of symbolic numbers cannot be hashed; membership is decided by
+        # (forking) symbolic equality instead
+        self.generic_visit(node)
+        lc = ast.ListComp(elt=node.elt, generators=node.generators)
+        return ast.Call(func=ast.Name(id="vcset_", ctx=ast.Load()), args=[lc], keywords=[])
+
+    def visit_Call(self, node):
+        self.generic_visit(node)
+        if isinstance(node.func, ast.Name) and node.func.id in ("set", "frozenset") and len(node.args) <= 1 and not node.keywords:
+            return ast.Call(func=ast.Name(id="vcset_", ctx=ast.Load()), args=node.args, keywords=[])
+        return node
+
     def visit_ListComp(self, node):
         self.generic_visit(node)
         if len(node.generators) != 1 or node.generators[0].is_async:
@@ -98,6 +111,7 @@ def rewrite_method(cls, name):
     g = fn.__globals__
     g["vcloop_"] = vcloop
     g["vccomp_"] = vccomp
+    g["vcset_"] = vcset
     ns = {}
     code = compile(mod, filename=f"<pycv-rewrite {qual}>", mode="exec")
     exec(code, g, ns)
@@ -107,6 +121,62 @@ def rewrite_method(cls, name):
     setattr(cls, name, new)
     REWRITTEN[qual] = dict(headers=rw.headers)
     return REWRITTEN[qual]
+
+
+class SymSet:
+    """set of values some of which are symbolic: membership by symbolic equality (every comparison forks the path)"""
+    __hash__ = None
+
+    def __init__(self, items=()):
+        self._items = []
+        for x in items:
+            self.add(x)
+
+    def add(self, x):
+        for y in self._items:
+            if x == y:
+                return
+        self._items.append(x)
+
+    def __contains__(self, x):
+        for y in self._items:
+            if x == y:
+                return True
+        return False
+
+    def __len__(self):
+        return len(self._items)
+
+    def __iter__(self):
+        return iter(list(self._items))
+
+    def __bool__(self):
+        return bool(self._items)
+
+    def pop(self):
+        if not self._items:
+            raise KeyError("pop from an empty set")
+        return self._items.pop()
+
+    def discard(self, x):
+        for k, y in enumerate(self._items):
+            if x == y:
+                del self._items[k]
+                return
+
+    def remove(self, x):
+        n = len(self._items)
+        self.discard(x)
+        if len(self._items) == n:
+            raise KeyError(x)
+
+
+def vcset(items=()):
+    from .sym import SymBool, SymNum
+    items = list(items)
+    if any(isinstance(x, (SymNum, SymBool)) or type(x).__name__ == "SymQ" for x in items):
+        return SymSet(items)
+    return set(items)
 
 
 def _is_symbolic_iterable(it):
